@@ -1485,6 +1485,7 @@ def connect(m, *args, **kwargs):
         # here to ensure they are not connected to port members.
         is_first = True
         first_path = None
+        first_dimensions = None
         sig_kind, out_kind, in_kind = [], [], []
         for handle, flattened_members in flattens.items():
             path_for_handle, member = next(flattened_members, (None, None))
@@ -1519,6 +1520,14 @@ def connect(m, *args, **kwargs):
             # At this point we know the paths are equal, but the members can still have
             # incompliant flow, kind (signature or port), signature, or shape. Collect all of
             # these for later evaluation.
+            if first_dimensions is None:
+                first_dimensions = ((handle, *path_for_handle), member.dimensions)
+            elif member.dimensions != first_dimensions[1]:
+                raise ConnectionError(
+                    f"Cannot connect the member {_format_path(first_dimensions[0])} with "
+                    f"dimensions {first_dimensions[1]!r} to the member "
+                    f"{_format_path((handle, *path_for_handle))} with dimensions "
+                    f"{member.dimensions!r} because the dimensions do not match")
             if member.is_port:
                 if member.flow == Out:
                     out_kind.append(((handle, *path_for_handle), member))
